@@ -208,6 +208,8 @@ struct FrameRec {
     created_address: Option<Address>,
     nonce_slack: Option<Address>,
     burned: alloy_primitives::U512,
+    /// remaining gas of this frame at its last step (C13: never grows inside a frame)
+    last_gas: Option<u64>,
 }
 
 struct StepRec {
@@ -486,6 +488,7 @@ impl Monitor {
             created_address,
             nonce_slack,
             burned: alloy_primitives::U512::ZERO,
+            last_gas: None,
         });
         self.max_depth = self.max_depth.max(self.frames.len());
         if sc.is_some() {
@@ -520,6 +523,17 @@ impl Monitor {
                 _ => "different-kind",
             };
             self.viol("C29", "C29.balanced", &[("case", k.into())], format!("end notification does not match the innermost open frame: begin {:?} end {:?}", rec.inputs, inputs));
+        }
+        // C13: a frame hands back at most the gas it was given
+        {
+            let given = match &inputs {
+                FrameInputs::Call(c) => c.gas_limit,
+                FrameInputs::Create(c) => c.gas_limit,
+                FrameInputs::EofCreate(c) => c.gas_limit,
+            };
+            if gas.remaining() > given || gas.remaining() > gas.limit() {
+                self.viol("C13", "C13.frame-gas", &[("case", "returned-more-than-given".into())], format!("frame ended ({result:?}) with {} gas remaining, given {given} (meter limit {})", gas.remaining(), gas.limit()));
+            }
         }
         let js = &context.journaled_state;
         // C07: depth restored
@@ -669,6 +683,22 @@ impl<DB: Database> Inspector<DB> for Monitor {
                     first_step = true;
                 }
                 mem_check = f.mem_at_call.take();
+            }
+        }
+        // ---- C13 at frame level: the meter never exceeds its limit, and inside one frame the
+        // remaining gas never grows from one instruction to the next (what a child hands back
+        // is at most what was charged for it: forwarded gas, plus a stipend that is smaller
+        // than the value-transfer cost)
+        {
+            let (rem, lim) = (interp.gas.remaining(), interp.gas.limit());
+            if rem > lim {
+                self.viol("C13", "C13.frame-gas", &[("case", "remaining-exceeds-limit".into())], format!("remaining gas {rem} exceeds the frame's limit {lim} before opcode 0x{opcode:02x}"));
+            }
+            let prev = self.frames.last_mut().and_then(|f| f.last_gas.replace(rem));
+            if let Some(prev) = prev {
+                if rem > prev {
+                    self.viol("C13", "C13.frame-gas", &[("case", "remaining-grew".into())], format!("remaining gas grew from {prev} to {rem} between two instructions of one frame (now at opcode 0x{opcode:02x})"));
+                }
             }
         }
         if nframes == 0 {
